@@ -23,6 +23,8 @@ enum Mode {
     InPlace,
     Returned,
     Twice,
+    /// called twice; both results are kept and driven after the second activation has run
+    TwiceKeep,
     Loop,
 }
 
@@ -72,7 +74,7 @@ impl Level {
 fn level_alphabet(max: u32, last: bool) -> Vec<Level> {
     let binds = [Bind::None, Bind::Param, Bind::Rest, Bind::Define];
     let sets = [SetWhen::Never, SetWhen::Before, SetWhen::After];
-    let modes: &[Mode] = if last { &[Mode::InPlace] } else { &[Mode::InPlace, Mode::Returned, Mode::Twice, Mode::Loop] };
+    let modes: &[Mode] = if last { &[Mode::InPlace] } else { &[Mode::InPlace, Mode::Returned, Mode::Twice, Mode::TwiceKeep, Mode::Loop] };
     let mut out = vec![];
     for b0 in binds {
         for b1 in binds {
@@ -133,7 +135,12 @@ fn level_text(levels: &[Level], idx: usize) -> String {
             "((lambda (inner) {}(lg! {} 1 a b c) {} (lg! {} 2 a b c) ((lambda (res) (lg! {} 3 a b c) res) {})) {})",
             after, lv, call, lv, lv, call, inner
         ),
-        Mode::Returned => format!("((lambda (inner) {}(lg! {} 1 a b c) inner) {})", after, lv, inner),
+        // the closure is handed back as a thunk, so that whoever ends up holding it can call it
+        Mode::Returned => format!("((lambda (inner) {}(lg! {} 1 a b c) (lambda () {})) {})", after, lv, call, inner),
+        Mode::TwiceKeep => format!(
+            "((lambda (inner) {}(lg! {} 1 a b c) ((lambda (r1) (lg! {} 2 a b c) ((lambda (r2) (lg! {} 3 a b c) (list r1 r2)) {})) {})) {})",
+            after, lv, lv, lv, call, call, inner
+        ),
         Mode::Loop => {
             let n = levels[idx + 1].nargs();
             format!(
@@ -145,19 +152,17 @@ fn level_text(levels: &[Level], idx: usize) -> String {
     format!("{}{})", head, body)
 }
 
-const PRE: &str = "(define a 1001) (define b 1002) (define c 1003) (define nn 0) (define (nx!) (set! nn (+ nn 1)) nn) (define trace '()) (define (lg! . xs) (set! trace (cons xs trace)))";
+const PRE: &str = "(define a 1001) (define b 1002) (define c 1003) (define nn 0) (define (nx!) (set! nn (+ nn 1)) nn) (define trace '()) (define (lg! . xs) (set! trace (cons xs trace))) (define (drive x) (cond ((procedure? x) (drive (x))) ((pair? x) (cons (drive (car x)) (drive (cdr x)))) (else x)))";
 
 /// The whole session for a skeleton.
 fn program(levels: &[Level]) -> Vec<String> {
-    let mut forms = vec![format!("(define r ({} {}))", level_text(levels, 0), args_text(levels[0].nargs()))];
-    // closures returned to the top level are called afterwards, in order
-    for (i, l) in levels.iter().enumerate() {
-        if l.mode == Mode::Returned && i + 1 < levels.len() {
-            forms.push(format!("(set! r (r {}))", args_text(levels[i + 1].nargs())));
-        }
-    }
-    forms.push("(list r trace a b c)".to_string());
-    forms
+    vec![
+        format!("(define r ({} {}))", level_text(levels, 0), args_text(levels[0].nargs())),
+        // closures handed back to the top level are called now, after their creators returned,
+        // in the order they were produced
+        "(set! r (drive r))".to_string(),
+        "(list r trace a b c)".to_string(),
+    ]
 }
 
 struct St {
@@ -332,7 +337,7 @@ pub fn run(ctx: &Ctx) -> i32 {
     rep.transitions = Some(acc.evals * 2);
     rep.traces_validated = Some(acc.nontrivial);
     rep.rule = format!(
-        "Every scope skeleton of 1..4 nested procedures over names a b c (all three also global) with total cost <= {} (quick tier: <= cost-1 for the 4-deep nests) where a level chooses, per name, its binding (none / parameter / rest parameter / internal define), a set! (never / before the inner closure is created / after it) and how the inner closure is used (called in place / returned and called after its creator returned / called twice / created three times in a named-let loop and all three called); cost = number of non-default choices. Every write stores a fresh value of a global counter and every level logs (level phase a b c) at entry, after closure creation and after the inner call; the session's last form returns the log and the globals. The log must equal the reference machine's (environment = persistent map name -> location, fresh location per activation). Non-trivial = agreement on all forms; skeletons are distinct by construction.",
+        "Every scope skeleton of 1..4 nested procedures over names a b c (all three also global) with total cost <= {} (quick tier: <= cost-1 for the 4-deep nests) where a level chooses, per name, its binding (none / parameter / rest parameter / internal define), a set! (never / before the inner closure is created / after it) and how the inner closure is used (called in place / returned as a thunk and called after its creator returned / called twice / called twice with both results kept and driven only after the second activation / created three times in a named-let loop and all three called); cost = number of non-default choices. Every write stores a fresh value of a global counter and every level logs (level phase a b c) at entry, after closure creation and after the inner call; the session's last form returns the log and the globals. The log must equal the reference machine's (environment = persistent map name -> location, fresh location per activation). Non-trivial = agreement on all forms; skeletons are distinct by construction.",
         b
     );
     rep.extra("cost_bound", json!(b));
